@@ -5,8 +5,7 @@ set -u
 NAME="$1"; SRC="$2"; shift 2
 D=/verif/seeded/$NAME
 mkdir -p "$D"
-for f in patch.diff README.md meta.json demo_test.go demo.sh; do [ -f "$SRC/$f" ] && cp "$SRC/$f" "$D/$f"; done
-for f in "$SRC"/*.grammar "$SRC"/*.go; do [ -f "$f" ] && cp "$f" "$D/" 2>/dev/null; done
+for f in "$SRC"/*; do [ -f "$f" ] && [ "$(stat -c %s "$f")" -lt 400000 ] && cp "$f" "$D/" 2>/dev/null; done
 cd /repo || exit 2
 if [ -n "$(git status --porcelain --untracked-files=no)" ]; then echo "/repo is dirty"; exit 2; fi
 git apply "$D/patch.diff" || { echo "patch does not apply"; exit 2; }
